@@ -139,6 +139,7 @@ type FnCtx struct {
 	inputTerms   []inputTerm
 	retSite      string
 	unroll       int
+	cmpLabel     string
 	baseElem     map[string]types.Type
 	baseKeySort  map[string]string
 	recordBases  map[string]string
